@@ -41,7 +41,7 @@ pub enum Ref { Sent(u32, u32), Forged(u32, u32, u32) } // (message, chunk) | (se
 #[derive(Clone, Debug)]
 pub enum Op {
     CSend(u32),      // client: next_request_id + SendBuffer::write of a message that needs n chunks
-    SSend(u32, u32), // server: MessageWriter::write(request id, message); second field 1: a message too large for the writer's buffer
+    SSend(u32, u32), // server: MessageWriter::write(request id, message); second field 1: a message of twice the chunk body room (two chunks since the writer chunks with its negotiated buffer size)
     Recv(Vec<Ref>),  // present these chunks as one message to the receiver
 }
 #[derive(Clone, Debug)]
@@ -251,9 +251,9 @@ impl Property for P {
             Case { rchan: 8, ..base(vec![CSend(2), Recv(m(0, 2)), Recv(vec![Forged(9, 5, 8)]), Recv(vec![Forged(10, 5, 8), Forged(11, 5, 7)])]) },
             // request id must be one per message
             base(vec![Recv(vec![Forged(1, 5, 7), Forged(2, 6, 7)]), Recv(vec![Forged(1, 5, 7), Forged(2, 5, 7)])]),
-            // server writer: always one chunk, sequence continues; mixed with client sends
+            // server writer: sequence continues; mixed with client sends
             base(vec![SSend(1001, 0), SSend(1002, 0), CSend(2), SSend(1003, 0), Recv(m(0, 1)), Recv(m(1, 1)), Recv(m(3, 1)), Recv(m(2, 2))]),
-            // a response that does not fit the writer's buffer: the write fails (and the connection with it)
+            // a response that does not fit one chunk of the writer's buffer size: written as two chunks
             base(vec![SSend(1001, 0), SSend(1002, 1), SSend(1003, 0), CSend(1), Recv(m(0, 1)), Recv(m(1, 1))]),
             // chunk count limit: the request id is consumed, no sequence number is
             Case { maxchunks: 2, ..base(vec![CSend(2), CSend(3), CSend(1), SSend(7, 0), Recv(m(0, 2)), Recv(m(1, 1))]) },
